@@ -29,7 +29,7 @@ METRICS = ['a', 'b', 'c', 'd']
 @st.composite
 def cases(draw, strategy=None):
   strategy = strategy or draw(st.sampled_from(cachesim.STRATEGIES))
-  counter = [0]
+  counter = [-1]       # values are unique ids 0, 1, 2, ...: the first one is the falsy 0
   recv = []
   for _ in range(draw(st.integers(1, 10))):
     if draw(st.integers(0, 5)) == 0:
@@ -49,6 +49,33 @@ def cases(draw, strategy=None):
     'faults': faults, 'switches': draw(c02.switch_lists(max_switches=12, max_gap=60)),
     'first': draw(st.integers(0, 1)), 'end_wait': draw(st.sampled_from([3, 70])),
   }
+
+
+@st.composite
+def pressure_cases(draw, strategy=None):
+  """few metrics, many stores, create limiting on and dense preemptions: the same still-uncreated metric is
+  drained more than once inside one writer pass."""
+  strategy = strategy or draw(st.sampled_from(cachesim.STRATEGIES))
+  counter = [-1]
+  metrics = METRICS[:draw(st.integers(2, 3))]
+  recv = []
+  for _ in range(draw(st.integers(6, 14))):
+    if draw(st.integers(0, 7)) == 0:
+      recv.append(['wait', draw(st.sampled_from([0.05, 0.5]))])
+    else:
+      counter[0] += 1
+      recv.append(['store', draw(st.sampled_from(metrics)), draw(st.sampled_from([1, 2, 3, 4, 5, 1.5])), counter[0]])
+  switches = []
+  pos = 0
+  for _ in range(draw(st.integers(4, 25))):
+    pos += draw(st.integers(1, 15))
+    switches.append([pos, 1])
+  nfaults = draw(st.sampled_from([0, 0, 1]))
+  faults = {str(draw(st.integers(0, 10))): draw(st.sampled_from(['ioerror', 'exception'])) for _ in range(nfaults)}
+  return {'strategy': strategy, 'lag': 0, 'recv': recv, 'creates_per_minute': draw(st.sampled_from([1, 1, 2])),
+          'updates_per_second': draw(st.sampled_from([None, None, 50])),
+          'precreated': draw(st.lists(st.sampled_from(metrics), unique=True, max_size=1)),
+          'faults': faults, 'switches': switches, 'first': draw(st.integers(0, 1)), 'end_wait': draw(st.sampled_from([3, 70]))}
 
 
 def judge(ctx, case, run, prefix='C03'):
@@ -197,9 +224,10 @@ FIXED = [
 
 
 def run(ctx):
-  n = 450 if ctx.quick else 1500
+  n = 330 if ctx.quick else 1500
   for i, s in enumerate(cachesim.STRATEGIES):
     run_given(ctx, cases(s), execute, n, salt=70 + i)
+    run_given(ctx, pressure_cases(s), execute, n // 3, salt=170 + i)
   if not ctx.quick:
     # exhaustive placement of <= 2 faults over the first 12 backend calls, fixed workloads
     import itertools
